@@ -3,7 +3,8 @@
    Print Assumptions beneath each.  The model is Model/PropLayer.v: `step`/`run_state` are the
    functions the correspondence check runs (run_case = run_ops (init ..) ops). *)
 From Coq Require Import ZArith List Bool.
-From Mesa Require Import Common.ListX Generated.Tables Model.PropLayer Proofs.PropLayerProofs Proofs.PropLayerEmpty.
+From Mesa Require Import Common.ListX Generated.Tables Model.PropLayer Proofs.PropLayerProofs Proofs.PropLayerEmpty
+  Proofs.PropLayerBridge.
 Import ListNotations.
 Open Scope Z_scope.
 
@@ -227,3 +228,175 @@ Example C18_proplayer_full_cell_example :
   map (fun o => step st o) [Place 3 [0; 0]; Move 2 [0; 0]; MoveRel 2 [0; -1] false; MoveRel 2 [0; 1] false]
     = [(st, RErr E_EXC); (st, RErr E_EXC); (st, RErr E_EXC); (st, RErr E_VALUE)].
 Proof. vm_compute. reflexivity. Qed.
+
+(* ===================================================================================================
+   Code-level T1: the bodies of the modelled functions, TRANSLATED from the working tree on every run
+   (harness/tables/proplayer_code.py -> gen_* in Generated/Tables.v), are the functions of the model;
+   and the headline statements hold of the translated code itself.
+   =================================================================================================== *)
+
+(* ufunc_requires_additional_input (both files, as repaired): "more than one INPUT" *)
+Theorem C11_source_ufunc_arity : forall nin,
+  gen_ufunc_nin_test_d nin = (1 <? nin) /\ gen_ufunc_nin_test_l nin = (1 <? nin).
+Proof. intros nin. split; [exact (arity_bridge_d nin)|exact (arity_bridge_l nin)]. Qed.
+Print Assumptions C11_source_ufunc_arity.
+
+(* modify_cells (condition array, dispatch on ufunc / arity / python function, the missing value, np.where) *)
+Theorem C11_source_modify_cells_is_model : forall L fm f hasval cd cu,
+  gen_modify_cells_d (l_data L) (fm_is_ufunc fm) cu (fm_nin fm) hasval (is_some cd) (eval_ocond cd)
+                     (apply_fop f) (apply_fop f) = model_modify_cells L fm f hasval cd /\
+  gen_modify_cells_l (l_data L) (fm_is_ufunc fm) cu (fm_nin fm) hasval (is_some cd) (eval_ocond cd)
+                     (apply_fop f) (apply_fop f) = model_modify_cells L fm f hasval cd.
+Proof. intros. split; [apply modify_cells_bridge_d|apply modify_cells_bridge_l]. Qed.
+Print Assumptions C11_source_modify_cells_is_model.
+
+(* set_cells (legacy: also for a ufunc condition; its shape test never fires) *)
+Theorem C11_source_set_cells_is_model : forall d v cd cu,
+  gen_set_cells_d d v (is_some cd) cu (eval_ocond cd) = GOk (model_set_cells d v cd) /\
+  gen_set_cells_l d v (is_some cd) cu (eval_ocond cd) = GOk (model_set_cells d v cd).
+Proof. intros. split; [apply set_cells_bridge_d|apply set_cells_bridge_l]. Qed.
+Print Assumptions C11_source_set_cells_is_model.
+
+(* legacy modify_cell: IndexError first, python function / value given / ValueError *)
+Theorem C11_source_modify_cell_is_model : forall L c fm f hasval,
+  (forall c', norm_coord (l_dims L) c = Some c' -> aget (l_data L) c' <> None) ->
+  (fm = UUn -> hasval = false) ->
+  gen_modify_cell_l (l_dims L) (l_data L) c (fm_single_arg fm) hasval (apply_fop f) (apply_fop f)
+  = model_modify_cell L c fm f hasval.
+Proof. exact modify_cell_bridge. Qed.
+Print Assumptions C11_source_modify_cell_is_model.
+
+(* PropertyDescriptor.__get__ / __set__ index the layer's CURRENT array by the cell's coordinate:
+   the model's cell attribute read and write are these two methods *)
+Theorem C11_source_descriptor_is_model : forall st c n v,
+  cell_read st c n =
+    match assoc n (s_descr st) with
+    | Some id => match get_obj st id with Some L => gen_descr_get (l_dims L) (l_data L) c | None => None end
+    | None => None
+    end /\
+  cell_setattr st c n v =
+    match assoc n (s_descr st) with
+    | Some id => match get_obj st id with
+                 | Some L => match gen_descr_set (l_dims L) (l_data L) c v with
+                             | GOk d => set_data st id L d
+                             | GErr _ _ => st
+                             end
+                 | None => st
+                 end
+    | None => st
+    end.
+Proof. intros. split; [apply cell_read_of_source|apply cell_setattr_of_source]. Qed.
+Print Assumptions C11_source_descriptor_is_model.
+
+(* add_property_layer / remove_property_layer: the validations in source order, the exception raised by
+   each, the three table updates (and for remove the partially updated tables at each failure point) *)
+Theorem C11_source_add_layer_is_model : forall st id L,
+  (s_discrete st = true ->
+   add_layer st id L =
+   match gen_add_layer_d (s_dims st) (l_dims L) (l_name L) id (s_grid st) (s_descr st) (s_props st) with
+   | GOk (g, d, p) => (set_tables st g d p, ROk [])
+   | GErr k _ => (st, RErr k)
+   end) /\
+  (forall gw gh lw lh, s_discrete st = false -> s_dims st = [gw; gh] -> l_dims L = [lw; lh] ->
+   add_layer st id L =
+   match gen_add_layer_l gw gh lw lh (l_name L) id (s_grid st) with
+   | GOk g => (set_tables st g (s_descr st) (s_props st), ROk [])
+   | GErr k _ => (st, RErr k)
+   end).
+Proof. intros. split; [apply add_layer_bridge_d|intros; apply add_layer_bridge_l; assumption]. Qed.
+Print Assumptions C11_source_add_layer_is_model.
+
+Theorem C11_source_remove_layer_is_model : forall st n,
+  (s_discrete st = true ->
+   remove_layer st n =
+   match gen_remove_layer_d n (s_grid st) (s_descr st) (s_props st) with
+   | GOk (g, d, p) => (set_tables st g d p, ROk [])
+   | GErr k (g, d, p) => (set_tables st g d p, RErr k)
+   end) /\
+  (s_discrete st = false ->
+   remove_layer st n =
+   match gen_remove_layer_l n (s_grid st) with
+   | GOk g => (set_tables st g (s_descr st) (s_props st), ROk [])
+   | GErr k _ => (st, RErr k)
+   end).
+Proof. intros. split; [apply remove_layer_bridge_d|apply remove_layer_bridge_l]. Qed.
+Print Assumptions C11_source_remove_layer_is_model.
+
+(* the extreme-value loop body of select_cells: masked max / min, equality mask, logical_and *)
+Theorem C11_source_extreme_step_is_model : forall m d mode, aligned m d ->
+  gen_ext_step_d m d mode = (if (mode =? HIGHEST) || (mode =? LOWEST) then GOk (ext_step m d mode) else GErr E_VALUE m) /\
+  gen_ext_step_l m d mode = (if (mode =? HIGHEST) || (mode =? LOWEST) then GOk (ext_step m d mode) else GErr E_VALUE m).
+Proof. intros m d mode H. split; [apply ext_step_bridge_d|apply ext_step_bridge_l]; exact H. Qed.
+Print Assumptions C11_source_extreme_step_is_model.
+
+(* the model's step for bulk modification IS the translated function applied to the layer's array *)
+Theorem C11_step_modify_cells_of_source : forall st r fm f hasval cd id L cu,
+  resolve st r = Some id -> get_obj st id = Some L ->
+  step st (ModifyCells r fm f hasval cd) =
+  lift_data st id L
+    (if s_discrete st
+     then gen_modify_cells_d (l_data L) (fm_is_ufunc fm) cu (fm_nin fm) hasval (is_some cd) (eval_ocond cd) (apply_fop f) (apply_fop f)
+     else gen_modify_cells_l (l_data L) (fm_is_ufunc fm) cu (fm_nin fm) hasval (is_some cd) (eval_ocond cd) (apply_fop f) (apply_fop f)).
+Proof. exact step_modify_cells_of_source. Qed.
+Print Assumptions C11_step_modify_cells_of_source.
+
+(* HEADLINE, about the translated source: whenever the translated modify_cells completes, every cell
+   holds `op old` exactly where the condition held on the old value, and the old value elsewhere *)
+Theorem C11_bulk_modify_of_source : forall L fm f hasval cd cu d',
+  (gen_modify_cells_d (l_data L) (fm_is_ufunc fm) cu (fm_nin fm) hasval (is_some cd) (eval_ocond cd)
+                      (apply_fop f) (apply_fop f) = GOk d' \/
+   gen_modify_cells_l (l_data L) (fm_is_ufunc fm) cu (fm_nin fm) hasval (is_some cd) (eval_ocond cd)
+                      (apply_fop f) (apply_fop f) = GOk d') ->
+  forall c, aget d' c = option_map (fun x => if eval_ocond cd x then apply_fop f x else x) (aget (l_data L) c).
+Proof. intros L fm f hasval cd cu d' [H|H]; [eapply bulk_modify_of_source_d|eapply bulk_modify_of_source_l]; exact H. Qed.
+Print Assumptions C11_bulk_modify_of_source.
+
+(* HEADLINE, about the translated loop body of the extreme-value stage: it accepts exactly "highest" /
+   "lowest" and keeps exactly the candidate cells whose value is the maximum / minimum over the candidates *)
+Theorem C11_extreme_exact_of_source : forall st F P d mode n m',
+  (forall c, In c (all_coords (s_dims st)) -> (F c = true <-> P c)) ->
+  grid_data st n = Some d -> akeys d = all_coords (s_dims st) ->
+  (gen_ext_step_d (fmask F (all_coords (s_dims st))) d mode = GOk m' \/
+   gen_ext_step_l (fmask F (all_coords (s_dims st))) d mode = GOk m') ->
+  (mode = HIGHEST \/ mode = LOWEST) /\
+  exists F', m' = fmask F' (all_coords (s_dims st)) /\
+    forall c, In c (all_coords (s_dims st)) ->
+      (F' c = true <-> (P c /\ forall c', In c' (all_coords (s_dims st)) -> P c' -> better mode d c' c)).
+Proof. exact extreme_exact_of_source. Qed.
+Print Assumptions C11_extreme_exact_of_source.
+
+(* get_neighborhood_mask (both): given the neighbourhood, the mask covers the grid and is True exactly on it *)
+Theorem C11_nbhd_mask_of_source : forall dims nb m c,
+  (gen_nbhd_mask_d dims nb = GOk m \/ gen_nbhd_mask_l dims nb = GOk m) ->
+  In c (all_coords dims) ->
+  map fst m = all_coords dims /\ (mget m c = true <-> In c nb).
+Proof. exact nbhd_mask_of_source. Qed.
+Print Assumptions C11_nbhd_mask_of_source.
+
+Example C11_source_code_example :
+  let d : garr := [([0; 0], 1); ([0; 1], 3); ([1; 0], 3); ([1; 1], 0)] in
+  (* np.add with value 2 where x > 0; the same without the value; np.negative *)
+  gen_modify_cells_d d true false 2 true true (fun x => x >? 0) (fun x => x) (fun x => x + 2)
+    = GOk [([0; 0], 3); ([0; 1], 5); ([1; 0], 5); ([1; 1], 0)] /\
+  gen_modify_cells_l d true false 2 false false (fun _ => true) (fun x => x) (fun x => x + 2) = GErr 1 d /\
+  gen_modify_cells_d d true false 1 false false (fun _ => true) Z.opp (fun x => x)
+    = GOk [([0; 0], -1); ([0; 1], -3); ([1; 0], -3); ([1; 1], 0)] /\
+  gen_set_cells_l d 9 true false (fun x => x =? 3) = GOk [([0; 0], 1); ([0; 1], 9); ([1; 0], 9); ([1; 1], 0)] /\
+  gen_modify_cell_l [2; 2] d [-1; 0] true false (fun x => x * 2) (fun x => x) = GOk [([0; 0], 1); ([0; 1], 3); ([1; 0], 6); ([1; 1], 0)] /\
+  gen_modify_cell_l [2; 2] d [2; 0] true false (fun x => x) (fun x => x) = GErr 3 d /\
+  (* highest among the candidates (0,0),(0,1),(1,0): the tie (0,1),(1,0) *)
+  gen_ext_step_d [([0; 0], true); ([0; 1], true); ([1; 0], true); ([1; 1], false)] d 0
+    = GOk [([0; 0], false); ([0; 1], true); ([1; 0], true); ([1; 1], false)] /\
+  gen_ext_step_l [([0; 0], false); ([0; 1], false); ([1; 0], false); ([1; 1], false)] d 1
+    = GOk [([0; 0], false); ([0; 1], false); ([1; 0], false); ([1; 1], false)] /\
+  gen_ext_step_d [([0; 0], true)] d 2 = GErr 1 [([0; 0], true)] /\
+  (* add: wrong shape / name taken / cell attribute / accepted; remove: missing / present *)
+  gen_add_layer_d [2; 2] [2; 3] 1 5 [(0, 0)] [(0, 0)] [0] = GErr 1 ([(0, 0)], [(0, 0)], [0]) /\
+  gen_add_layer_d [2; 2] [2; 2] 0 5 [(0, 0)] [(0, 0)] [0] = GErr 1 ([(0, 0)], [(0, 0)], [0]) /\
+  gen_add_layer_d [2; 2] [2; 2] 101 5 [(0, 0)] [(0, 0)] [0] = GErr 1 ([(0, 0)], [(0, 0)], [0]) /\
+  gen_add_layer_d [2; 2] [2; 2] 1 5 [(0, 0)] [(0, 0)] [0] = GOk ([(0, 0); (1, 5)], [(0, 0); (1, 5)], [0; 1]) /\
+  gen_remove_layer_d 1 [(0, 0)] [(0, 0)] [0] = GErr 2 ([(0, 0)], [(0, 0)], [0]) /\
+  gen_remove_layer_d 1 [(0, 0); (1, 5)] [(0, 0); (1, 5)] [0; 1] = GOk ([(0, 0)], [(0, 0)], [0]) /\
+  gen_add_layer_l 2 2 2 3 1 0 [] = GErr 1 [] /\ gen_remove_layer_l 1 [] = GErr 1 [] /\
+  gen_nbhd_mask_d [2; 2] [[0; 1]; [1; 1]] = GOk [([0; 0], false); ([0; 1], true); ([1; 0], false); ([1; 1], true)].
+Proof. vm_compute. repeat split. Qed.
